@@ -6,7 +6,7 @@ import random
 
 ID = "C01"
 LEVEL = "exploration"
-TECHNIQUE = "differential runtime monitoring: real Message.encode/decode and both datagram receive paths driven with generated + systematically mutated datagrams, judged by an independent RFC 7252 reference codec"
+TECHNIQUE = "differential runtime monitoring: real Message.encode/decode and both datagram receive paths driven with generated + systematically mutated datagrams, judged by an independent RFC 7252 reference codec; datagram sizes up to 65 kB through aiocoap's recvmsg transport on a real (AF_UNIX) datagram socket"
 LEVEL_TEXT = "Held on every generated case: ~2e5 (quick) / ~2e7 (thorough) messages and byte strings incl. exhaustive single-byte substitutions, truncations and the extended-field boundary grid; says nothing about inputs outside the generators' classes."
 LEVEL_NOTE = "Trusted: harness/refcodec.py (self-tested on RFC example datagrams each run); option value legality table in checks/c01.py."
 RULE = (
@@ -14,14 +14,15 @@ RULE = (
     "reference encoder, (b) reference-encoded well-formed datagrams (non-minimal uints, unknown/repeated options, "
     "extended-field boundaries) decoded and compared on values, (c) every single-byte substitution / truncation / "
     "insertion / deletion of valid datagrams plus random strings, checked for totality and round trip, (d) the same "
-    "bytes pushed through both receive paths. A case is non-trivial when it has at least one option, a token, a payload "
+    "bytes pushed through both receive paths, (e) well-formed datagrams of 0 .. 65 kB (dense around 4096) written to a real datagram socket and read by "
+    "aiocoap's recvmsg transport into the udp6 receive path: dispatched as the message they are, or not at all. A case is non-trivial when it has at least one option, a token, a payload "
     "or is a mutation; distinct = distinct (class, header shape, option delta/length classes, payload class, outcome) signatures"
 )
 ASSUMPTIONS = [
     "harness/refcodec.py is a correct reading of RFC 7252 section 3 (self-tested on RFC examples each run)",
     "value legality per format: strings are valid UTF-8 text, uints non-negative, block = (num < 2^20, more, szx 0..7)",
 ]
-REQUIRED_MONITORS = {"forward_bytes": 100, "forward_decode": 100, "backward_values": 100, "totality": 1000, "rx_udp6": 100, "rx_generic": 100}
+REQUIRED_MONITORS = {"forward_bytes": 100, "forward_decode": 100, "backward_values": 100, "totality": 1000, "rx_udp6": 100, "rx_generic": 100, "accepted_in_domain": 1000, "rx_socket": 300, "rx_socket_above_4096": 100}
 EXHAUSTIVE = {"single_byte_substitution": "all 256 values at every offset of each base datagram <= 24 bytes", "truncation": "every prefix length of every base datagram", "ext_field_grid": "delta x length over {0,1,12,13,14,268,269,270,65803,65804}"}
 
 STRING = {3, 8, 11, 15, 20, 35, 39}
@@ -301,6 +302,11 @@ class Checker:
         else:
             outcome = "parsed"
             f1 = fields_of(m)
+            rep.monitor("accepted_in_domain")
+            if len(f1[3]) > 8:
+                # token lengths 9-15 "MUST be processed as a message format error" (RFC 7252 section 3); what came out is
+                # no message the library can represent (0-8 byte token) and its serialisation is no section 3 datagram
+                rep.violation("total/token-longer-than-8-accepted", "a datagram with token length 9-15 was parsed into a message (with a %d byte token) instead of being rejected" % len(f1[3]), {"bytes": data[:300].hex(), "fields": repr(f1)[:300]}, case)
             m.direction = self.Direction.OUTGOING
             try:
                 y = m.encode()
@@ -316,6 +322,34 @@ class Checker:
         rep.count("outcome_" + outcome)
         self.receive_paths(data, case)
         return outcome
+
+    def socket_path(self, refmsg, kind, case):
+        """(e) a well-formed datagram of any size that arrives on the socket is dispatched as what it is, or not at
+        all (UDP may drop); never as something else."""
+        from harness import refcodec as rc
+
+        rep = self.rep
+        data = rc.encode(refmsg)
+        try:
+            dispatched, received, errors = self.rx.through_socket(data)
+        except OSError as e:
+            rep.count("socket_path_send_refused_" + str(e.errno))
+            return
+        rep.monitor("rx_socket")
+        rep.seen("rx_socket_size_class", cls(len(data)))
+        if len(data) > 4096:
+            rep.monitor("rx_socket_above_4096")
+        if not received and not errors:
+            rep.inconc("the datagram written to the socket pair was not read by the transport")
+            return
+        for m in dispatched:
+            got = fields_of(m)
+            want_opts = [(n, ref_value(n, v)) for n, v in refmsg.options]
+            want = (refmsg.type, refmsg.code, refmsg.mid, refmsg.token, want_opts, refmsg.payload)
+            if got != want:
+                what = "truncated" if len(got[5]) < len(want[5]) and want[5].startswith(got[5]) and got[:5] == want[:5] else "other"
+                rep.violation("rx/udp6-socket-dispatches-different-message/" + what, "a well-formed datagram read from the socket was dispatched as a different message (%d of %d payload bytes)" % (len(got[5]), len(want[5])), {"datagram_length": len(data), "read_by_transport": received, "head": data[:40].hex(), "got": repr(got)[:300]}, case)
+        rep.count("rx_socket_dispatched" if dispatched else "rx_socket_dropped")
 
     @staticmethod
     def escape_key(prefix, e, data):
@@ -354,6 +388,32 @@ class Checker:
 
 
 class RxPaths:
+    def close(self):
+        try:
+            self.sock_transport.close()
+        except Exception:
+            pass
+        self.sock_tx.close()
+
+    def through_socket(self, data):
+        """Send one datagram through the socket pair and let the transport read it. Returns (messages dispatched,
+        (received length, flags) as the transport saw it)."""
+        del self.dispatched[:], self.sock_received[:], self.sock_errors[:]
+        self.sock_tx.send(data)
+        # (an AF_UNIX socket has no error queue: reading it would hand out the datagram itself; the error-queue half of
+        # _read_ready is not this path's subject)
+        from aiocoap.util.asyncio import recvmsg
+
+        saved = recvmsg.socknumbers.HAS_RECVERR
+        recvmsg.socknumbers.HAS_RECVERR = False
+        try:
+            self.sock_transport._read_ready()
+        finally:
+            recvmsg.socknumbers.HAS_RECVERR = saved
+        out = list(self.dispatched), list(self.sock_received), list(self.sock_errors)
+        del self.dispatched[:]
+        return out
+
     def __init__(self, loop):
         import logging
         import socket
@@ -387,6 +447,46 @@ class RxPaths:
                 return False
 
         g = G(Mgr(), log, loop)
+        # the real receive path below datagram_msg_received: aiocoap's own recvmsg() transport on a real datagram
+        # socket (AF_UNIX pair: the kernel's datagram truncation semantics without needing a network)
+        from aiocoap.util.asyncio.recvmsg import RecvmsgSelectorDatagramTransport
+
+        class NoLoop:
+            def call_soon(self, *a, **kw):
+                pass
+
+            def remove_reader(self, *a):
+                pass
+
+            def add_reader(self, *a):
+                pass
+
+            def is_closed(self):
+                return True
+
+        class Proto:
+            def connection_made(self, t):
+                pass
+
+            def connection_lost(self, exc):
+                pass
+
+            def datagram_errqueue_received(self, *a):
+                pass
+
+            def error_received(self, exc):
+                outer.sock_errors.append(exc)
+
+            def datagram_msg_received(self, data, ancdata, flags, address):
+                outer.sock_received.append((len(data), flags))
+                u.datagram_msg_received(data, anc, flags, ("2001:db8::2", 5683, 0, 0))
+
+        self.sock_errors = []
+        self.sock_received = []
+        self.sock_rx, self.sock_tx = socket.socketpair(socket.AF_UNIX, socket.SOCK_DGRAM)
+        self.sock_rx.setblocking(False)
+        self.sock_tx.setsockopt(socket.SOL_SOCKET, socket.SO_SNDBUF, 1 << 20)
+        self.sock_transport = RecvmsgSelectorDatagramTransport(NoLoop(), self.sock_rx, Proto(), None)
         self.paths = [
             ("udp6", lambda data: u.datagram_msg_received(data, anc, 0, ("2001:db8::2", 5683, 0, 0))),
             ("generic", lambda data: g._received_datagram("addr", data)),
@@ -524,6 +624,22 @@ def run_shard(shard, rep, only=None):
                 data = bytes([0x40 | (data[0] & 0x3F)]) + data[1:]
             if want(case):
                 ck.total(data, "rand", case)
+        # ---- (e) sizes through the real socket receive path ------------------------
+        sizes = [0, 1, 100, 1024, 1152, 1280, 1500, 2048, 4000, 4080, 4090, 4095, 4096, 4097, 4100, 5000, 8192, 9000, 16384, 40000, 65000, 65400]
+        for i in range(max(40, n // 50)):
+            case = ["sock", i]
+            if not want(case):
+                continue
+            typ, code, mid, token, options, payload = gen_fields(r)
+            try:
+                opts = tuple(sorted(((nn, ref_raw(nn, v)) for nn, v in options), key=lambda o: o[0]))
+                head = rc.encode(rc.Msg(typ, code or 1, mid, token, opts, b"x"))
+            except rc.Unrepresentable:
+                continue
+            total = r.choice(sizes) + r.choice([0, 0, 0, -1, 1, r.randrange(0, 50)])
+            plen = max(1, total - (len(head) - 1))
+            body = bytes(r.getrandbits(8) for _ in range(min(plen, 64))) * (plen // 64 + 1)
+            ck.socket_path(rc.Msg(typ, code or 1, mid, token, opts, body[:plen]), "sock", case)
         # targeted: invalid UTF-8 in each string option; delta/length 65804 on the wire
         for nn in sorted(STRING):
             case = ["badutf8", nn]
@@ -533,4 +649,6 @@ def run_shard(shard, rep, only=None):
         if want(case):
             ck.total(rc.encode(rc.Msg(0, 1, 5, b"", ((65804, b""),), b"")), "ext65804", case)
     finally:
+        if ck.rx is not None:
+            ck.rx.close()
         vloop.close_loop(loop)
